@@ -190,3 +190,16 @@ async fn f_c07_a_cached_name_keeps_the_requested_port() {
     assert_eq!(a.port(), 80);
     assert_eq!(b.port(), 443, "localhost:443 was answered with {} (the port of the request that filled the cache)", b);
 }
+
+/// F-C05-b  auth.send_authentication.oversize_line0_not_sent_truncated
+#[tokio::test]
+async fn f_c05_b_preamble_padding_is_not_truncated() {
+    let pf = Arc::new(PaddingFactory::new(b"stop=3\n0=70000-70000").unwrap());
+    let mut out = Vec::new();
+    let r = anytls_rs::send_authentication(&mut out, &[9u8; 32], &pf).await;
+    if r.is_ok() {
+        let declared = u16::from_be_bytes([out[32], out[33]]) as usize;
+        assert!(declared == 70000 || declared == 65535, "line 0 prescribes 70000 bytes of padding, the preamble declares and carries {} (70000 mod 65536)", declared);
+    }
+}
+
